@@ -9,7 +9,12 @@ import (
 	"context"
 	"reflect"
 
+	metav1 "k8s.io/apimachinery/pkg/apis/meta/v1"
 	"k8s.io/apimachinery/pkg/runtime"
+	"k8s.io/apimachinery/pkg/types"
+	"k8s.io/utils/ptr"
+
+	"github.com/crossplane/crossplane-runtime/pkg/resource/unstructured/composed"
 
 	zz "github.com/crossplane/crossplane/internal/zzverif"
 	"github.com/crossplane/crossplane/internal/zzverif/kube"
@@ -111,4 +116,54 @@ func HarnessC02PT() {
 		zz.Assert("conflict-with-foreign-owner-surfaces", err != nil)
 	}
 	zz.Observe("err", err != nil)
+}
+
+// HarnessC02PTUsage: the same for a composed resource of kind Usage, which
+// the patch-and-transform composer applies with an extra option of its own:
+// a referenced Usage that another owner controls is not patched, and the
+// conflict surfaces; one the XR controls (or nobody does) is.
+//
+//gosym:harness
+//gosym:cover foreign-usage own-usage
+func HarnessC02PTUsage() {
+	s := kube.New()
+	const usageAPI, usageKind, usageName = "apiextensions.crossplane.io/v1beta1", "Usage", zzXRName + "-usage"
+	foreign := zz.Str("foreign.uid")
+	zz.Assume(foreign != zzXRUIDc)
+	zz.Assume(foreign != "")
+	u := composed.New()
+	u.SetAPIVersion(usageAPI)
+	u.SetKind(usageKind)
+	u.SetName(usageName)
+	u.SetAnnotations(map[string]string{AnnotationKeyCompositionResourceName: zzResNames[0]})
+	u.Object["spec"] = map[string]any{"reason": "old"}
+	owner := zz.Choose("usage.controller", 3) // nobody, the XR, another owner
+	switch owner {
+	case 1:
+		u.SetOwnerReferences([]metav1.OwnerReference{{APIVersion: "example.org/v1", Kind: "XR", Name: zzXRName, UID: zzXRUIDc, Controller: ptr.To(true)}})
+	case 2:
+		u.SetOwnerReferences([]metav1.OwnerReference{{APIVersion: "example.org/v1", Kind: "Other", Name: "other", UID: types.UID(foreign), Controller: ptr.To(true)}})
+	}
+	s.Put(u)
+	xr := zzNewXRObject()
+	xr.Object["spec"] = map[string]any{"resourceRefs": []any{map[string]any{"apiVersion": usageAPI, "kind": usageKind, "name": usageName}}}
+	s.Put(xr)
+	before := runtime.DeepCopyJSON(s.Doc("apiextensions.crossplane.io", usageKind, "", usageName))
+
+	rev := zzPTRevision([]bool{true}, nil)
+	rev.Spec.Resources[0].Base = runtime.RawExtension{Raw: []byte(`{"apiVersion":"` + usageAPI + `","kind":"Usage","spec":{"reason":"new"}}`)}
+	c := NewPTComposer(s, s)
+	_, err := c.Compose(context.Background(), zzReadXR(s), CompositionRequest{Revision: rev})
+	after := s.Doc("apiextensions.crossplane.io", usageKind, "", usageName)
+	if owner == 2 {
+		zz.Cover("foreign-usage")
+		zz.Assert("foreign-object-left-exactly-as-it-was", reflect.DeepEqual(before, after))
+		zz.Assert("conflict-with-foreign-owner-surfaces", err != nil)
+		return
+	}
+	zz.Cover("own-usage")
+	zz.Assert("compose-no-error", err == nil)
+	spec, _ := after["spec"].(map[string]any)
+	zz.Assert("own-usage-is-updated", spec["reason"] == any("new"))
+	zz.Assert("own-usage-controlled-by-the-xr", kube.ControllerUID(after) == zzXRUIDc)
 }
